@@ -27,7 +27,9 @@ func TestC14(t *testing.T) {
 	runWorld(t, run, scs, []func(*w.MonCtx){w.MonC14, w.MonC14Status}, 0, func(sc *w.Scenario, s *w.State, d int) {
 		k++
 		if k%29 == 0 {
-			samples = append(samples, sample{sc, s})
+			if len(samples) < 100000 {
+				samples = append(samples, sample{sc, s})
+			}
 		}
 	})
 	requireAntecedents(run, "C14/ers-counters", "C14/eds-status")
